@@ -284,7 +284,15 @@ func Font(t *rapid.T) (*t1ref.RawFont, string) {
 		}
 	case 8:
 		label = "several-fonts"
-		f.DefineTwice = true
+		// a second, different font; or the same dictionary registered under
+		// several names, with or without a FontName of its own
+		if rapid.Bool().Draw(t, "aliases") {
+			label = "font-aliases"
+			f.Aliases = [][]string{{"Alias"}, {"Alias", "Zeta"}, {"Hostile"}, {"A", "B", "C"}}[rapid.IntRange(0, 3).Draw(t, "aliasset")]
+			f.NoFontName = rapid.Bool().Draw(t, "nofontname")
+		} else {
+			f.DefineTwice = true
+		}
 		f.Glyphs = []t1ref.RawGlyph{{Name: ".notdef", Code: append(append([]byte{}, hsbw...), 14)}}
 	default:
 		label = "hostile-tail"
